@@ -58,6 +58,10 @@ def run(cx):
                         c = op_const(o)
                         if c and "str" in c:
                             lits.add(c["str"])
+    # literals may also live in a const table of the module (`const EXTENSIONS: [&str; 4] = [...]`)
+    for c in cx.syn()["consts"]:
+        if c["file"].endswith("isograph_compiler/src/read_files.rs"):
+            lits |= set(re.findall(r'"([^"\\]*)"', c.get("expr", "")))
     cx.ob("R20.same-filter", "read_files|predicate-table", {"ts", "tsx", "js", "jsx", "__isograph"} <= lits,
           "the source predicate no longer tests the four extensions and the __isograph folder (found %s)" % sorted(x for x in lits if len(x) < 12),
           "crates/isograph_compiler/src/read_files.rs")
